@@ -1046,12 +1046,6 @@ impl ExtensionStore {
             HashMap<SimpleSelector, IndexMap<ComplexSelector, Extension>>,
         > = None;
         for extension in extensions {
-            let mut sources = self
-                .extensions
-                .get(&extension.target.clone().unwrap())
-                .unwrap()
-                .clone();
-
             // `extend_existing_selectors` would have thrown already.
             let selectors: Vec<ComplexSelector> = if let Some(v) = self.extend_complex(
                 extension.extender.clone(),
@@ -1072,6 +1066,11 @@ impl ExtensionStore {
             }
             */
 
+            let sources = self
+                .extensions
+                .get_mut(&extension.target.clone().unwrap())
+                .unwrap();
+
             let contains_extension = selectors.first() == Some(&extension.extender);
 
             let mut first = false;
@@ -1086,14 +1085,12 @@ impl ExtensionStore {
                 let with_extender = extension.clone().with_extender(complex.clone());
                 let existing_extension = sources.get(&complex);
                 if let Some(existing_extension) = existing_extension.cloned() {
-                    sources.get_mut(&complex).replace(
-                        &mut MergedExtension::merge(existing_extension.clone(), with_extender)
-                            .unwrap(),
+                    sources.insert(
+                        complex.clone(),
+                        MergedExtension::merge(existing_extension, with_extender).unwrap(),
                     );
                 } else {
-                    sources
-                        .get_mut(&complex)
-                        .replace(&mut with_extender.clone());
+                    sources.insert(complex.clone(), with_extender.clone());
 
                     for component in complex.components.clone() {
                         if let ComplexSelectorComponent::Compound(component) = component {
